@@ -40,40 +40,41 @@ type inputSym struct {
 }
 
 type Exec struct {
-	prog          *ssa.Program
-	pkg           *ssa.Package
-	tpkg          *packages.Package
-	fset          *token.FileSet
-	specs         *SpecSet
-	symCounter    int
-	epochCounter  int
-	freshCounter  int
-	cellCounter   int
-	closures      map[string]*ClosureV
-	funcs         map[string]*ssa.Function
-	obls          []*Obligation
-	oblCount      map[string]int
-	curFunc       string
-	curContract   *Contract
-	curInputs     []inputSym
-	abstracted    map[string]int // calls handled by dependency contracts / defaults
-	inlined       map[string]int
-	errors        []string
-	maxSteps      int
-	maxPaths      int
-	paths         int
-	strLits       map[string]string
-	tagIDs        map[string]int
-	assumedTags   map[string]bool // clauses tagged ONLY with other properties are assumed, not checked (nil = check all)
-	onlyTag       string
-	loopInfo      map[*ssa.Function]*loopInfo
-	debug         bool
-	usedContracts map[string]bool
-	warnings      []string
-	noDef         bool
-	pdoms         map[*ssa.Function]*pdomInfo
-	noMerge       bool
-	merges        int
+	prog           *ssa.Program
+	pkg            *ssa.Package
+	tpkg           *packages.Package
+	fset           *token.FileSet
+	specs          *SpecSet
+	symCounter     int
+	epochCounter   int
+	freshCounter   int
+	cellCounter    int
+	closures       map[string]*ClosureV
+	funcs          map[string]*ssa.Function
+	obls           []*Obligation
+	oblCount       map[string]int
+	curFunc        string
+	curContract    *Contract
+	curInputs      []inputSym
+	abstracted     map[string]int // calls handled by dependency contracts / defaults
+	inlined        map[string]int
+	errors         []string
+	maxSteps       int
+	maxPaths       int
+	paths          int
+	strLits        map[string]string
+	tagIDs         map[string]int
+	assumedTags    map[string]bool // clauses tagged ONLY with other properties are assumed, not checked (nil = check all)
+	onlyTag        string
+	loopInfo       map[*ssa.Function]*loopInfo
+	debug          bool
+	usedContracts  map[string]bool
+	warnings       []string
+	noDef          bool
+	loopHeapStored map[*ssa.Alloc]bool
+	pdoms          map[*ssa.Function]*pdomInfo
+	noMerge        bool
+	merges         int
 }
 
 func (x *Exec) nextEpoch() int { x.epochCounter++; return x.epochCounter }
@@ -266,7 +267,7 @@ func (x *Exec) VerifyFunc(key string) (err error) {
 			panic(r)
 		}
 	}()
-	st := &State{x: x, heap: map[string]Term{}, cells: map[*Cell]Val{}, ghost: map[string]Term{}, declared: map[string]bool{}}
+	st := &State{x: x, heap: map[string]Term{}, cells: map[*Cell]Val{}, ghost: map[string]Term{}, declared: map[string]bool{}, interfered: map[string][]Term{}}
 	x.declareGhosts(st)
 	fr := &Frame{fn: fn, regs: map[ssa.Value]Val{}, cut: map[*ssa.BasicBlock]*loopCut{}}
 	x.curInputs = nil
@@ -677,6 +678,7 @@ func (x *Exec) execAlloc(st *State, fr *Frame, a *ssa.Alloc) {
 			r := st.freshRef("new_" + structName(et))
 			r.Typ = a.Type()
 			st.storeStruct(r, su, et, st.zeroVal(et))
+			x.freshMutexes(st, r, su, structName(et))
 			fr.regs[a] = r
 			return
 		}
@@ -713,6 +715,20 @@ func (x *Exec) execAlloc(st *State, fr *Frame, a *ssa.Alloc) {
 	fr.regs[a] = CellPtr{C: c}
 }
 
+// freshMutexes: the zero value of a sync mutex is unlocked (lock typestate ghost).
+func (x *Exec) freshMutexes(st *State, ref Term, su *types.Struct, sn string) {
+	if _, ok := st.ghost["lockmode"]; !ok {
+		return
+	}
+	for i := 0; i < su.NumFields(); i++ {
+		f := su.Field(i)
+		if n, ok := types.Unalias(f.Type()).(*types.Named); ok && n.Obj().Pkg() != nil && n.Obj().Pkg().Path() == "sync" && (n.Obj().Name() == "RWMutex" || n.Obj().Name() == "Mutex") {
+			er := st.embRef(sn, f.Name(), ref)
+			st.assume(tSame(tSelect(st.ghost["lockmode"], er), Term{S: "0", Sort: sInt}))
+		}
+	}
+}
+
 func (x *Exec) load(st *State, addr Val, t types.Type) Val {
 	switch a := addr.(type) {
 	case CellPtr:
@@ -731,6 +747,7 @@ func (x *Exec) load(st *State, addr Val, t types.Type) Val {
 		}
 		return v
 	case FieldPtr:
+		x.guardCheck(st, a, false, nil)
 		return st.loadField(nil, a.Ref, a.S, a.SN, a.Idx)
 	case ElemPtr:
 		return st.loadElem(nil, a.Arr, a.Idx, a.Elem)
@@ -782,7 +799,7 @@ func (x *Exec) store(st *State, fr *Frame, addr Val, v Val, t types.Type, at ssa
 	case CellPtr:
 		st.cells[a.C] = setPath(st, st.cells[a.C], a.Path, v)
 	case FieldPtr:
-		x.checkFrameStore(st, a.SN+"."+a.S.Field(a.Idx).Name(), a.Ref, at)
+		x.guardCheck(st, a, true, v)
 		st.storeField(a.Ref, a.S, a.SN, a.Idx, v)
 	case ElemPtr:
 		st.storeElem(a.Arr, a.Idx, a.Elem, v)
@@ -813,9 +830,59 @@ func (x *Exec) store(st *State, fr *Frame, addr Val, v Val, t types.Type, at ssa
 	}
 }
 
-func (x *Exec) checkFrameStore(st *State, key string, ref Term, at ssa.Instruction) {
-	// frame checking is done at exit by comparing heap arrays (see checkFrame); nothing here.
+// guardCheck: lock discipline (guarded fields need the lock: read mode for loads, write mode for stores; objects
+// allocated by the function under verification are not shared yet and are exempt) and per-field transition invariants.
+func (x *Exec) guardCheck(st *State, a FieldPtr, write bool, nv Val) {
+	key := a.SN + "." + a.S.Field(a.Idx).Name()
+	fr := st.top()
+	if mf, ok := x.specs.Guarded[key]; ok && x.onlyTagIs("C14") {
+		if _, has := st.ghost["lockmode"]; has {
+			st.declareOnce("is_fresh", "(declare-fun is_fresh (Ref) Int)")
+			mu := st.embRef(a.SN, mf, a.Ref)
+			mode := tSelect(st.ghost["lockmode"], mu)
+			need := "(>= " + mode.S + " 1)"
+			kind := "guarded-read"
+			if write {
+				need = "(= " + mode.S + " 2)"
+				kind = "guarded-write"
+			}
+			goal := Term{S: "(or (> (is_fresh " + a.Ref.S + ") 0) " + need + ")", Sort: sBool}
+			pos := token.NoPos
+			if fr.pc < len(fr.block.Instrs) {
+				pos = fr.block.Instrs[fr.pc].Pos()
+			}
+			name := fmt.Sprintf("%s/%s:%s@%s", x.curFunc, kind, key, x.siteName(fr, pos))
+			x.oblige(st, name, "lock-discipline", []string{"C14"}, goal, pos, key+" is accessed only while "+a.SN+"."+mf+" is held in the required mode")
+		}
+	}
+	if tr, ok := x.specs.Trans[key]; ok && write {
+		if x.onlyTag != "" && len(tr.Tags) > 0 {
+			found := false
+			for _, tg := range tr.Tags {
+				if tg == x.onlyTag {
+					found = true
+				}
+			}
+			if !found {
+				return
+			}
+		}
+		old := st.loadField(nil, a.Ref, a.S, a.SN, a.Idx)
+		env := &specEnv{x: x, st: st, vars: map[string]Val{"old": old, "new": nv}, where: "transition " + key}
+		cl := &Clause{File: tr.File, Line: tr.Line, Src: tr.Src}
+		goal := x.evalBool(env, tr.Expr, cl)
+		st.declareOnce("is_fresh", "(declare-fun is_fresh (Ref) Int)")
+		goal = tOr(Term{S: "(> (is_fresh " + a.Ref.S + ") 0)", Sort: sBool}, goal)
+		pos := token.NoPos
+		if fr.pc < len(fr.block.Instrs) {
+			pos = fr.block.Instrs[fr.pc].Pos()
+		}
+		name := fmt.Sprintf("%s/transition:%s@%s", x.curFunc, key, x.siteName(fr, pos))
+		x.oblige(st, name, "transition-invariant", tr.Tags, goal, pos, "store to "+key+" respects: "+tr.Src)
+	}
 }
+
+func (x *Exec) onlyTagIs(tag string) bool { return x.onlyTag == "" || x.onlyTag == tag }
 
 func (x *Exec) fieldAddr(st *State, base Val, bt types.Type, field int) Val {
 	pt := under(bt).(*types.Pointer).Elem()
@@ -1282,11 +1349,17 @@ func (x *Exec) havocLoop(st *State, fr *Frame, head *ssa.BasicBlock) {
 	body := x.loops(fr.fn).blocks[head]
 	// pass 1: locals assigned in the loop
 	allocs := newModset()
+	heapStored := map[*ssa.Alloc]bool{}
+	x.loopHeapStored = heapStored
 	for b := range body {
 		for _, in := range b.Instrs {
 			if s, ok := in.(*ssa.Store); ok {
-				if al, ok := rootAlloc(s.Addr); ok && !al.Heap {
-					allocs.allocs[al] = true
+				if al, ok := rootAlloc(s.Addr); ok {
+					if !al.Heap {
+						allocs.allocs[al] = true
+					} else {
+						heapStored[al] = true
+					}
 				}
 			}
 		}
@@ -1362,7 +1435,7 @@ func (x *Exec) staticVal(st *State, fr *Frame, v ssa.Value, allocs *modset) (res
 		if n.Op != token.MUL {
 			return nil, false
 		}
-		if al, isAlloc := n.X.(*ssa.Alloc); isAlloc && !al.Heap && !allocs.allocs[al] {
+		if al, isAlloc := n.X.(*ssa.Alloc); isAlloc && !allocs.allocs[al] && !x.loopHeapStored[al] {
 			p, has := fr.regs[al]
 			if !has {
 				return nil, false
@@ -1439,7 +1512,15 @@ func (x *Exec) instrModsLoop(st *State, fr *Frame, in ssa.Instruction, ms *modse
 		for k, n := range names {
 			if k < len(args) {
 				if v, good := x.staticVal(st, fr, args[k], allocs); good {
-					env.vars[n] = v
+					env.vars[n] = x.normArg(st, v)
+				}
+			}
+		}
+		for _, un := range c.Uses {
+			// caller variable visible to a callback contract: usable when it is not assigned in the loop
+			for v := range fr.regs {
+				if a, ok := v.(*ssa.Alloc); ok && a.Comment == un && !allocs.allocs[a] && !x.loopHeapStored[a] {
+					env.vars[un] = x.load(st, fr.regs[a], a.Type().(*types.Pointer).Elem())
 				}
 			}
 		}
